@@ -59,8 +59,10 @@ func c11Alphabet(e *typEnv, c *rm.Col, uuid string, level int) []c11Op {
 			mmm("insert #1; delete keys of #1", insM(uni[1]), delM(rm.SetOf(uni[1].Keys()...)))
 			mmm("delete keys of #1; insert #2", delM(rm.SetOf(uni[1].Keys()...)), insM(uni[2]))
 			mmm("insert #2; delete #1; insert #1", insM(uni[2]), delM(uni[1]), insM(uni[1]))
+			mmm("insert #1; insert other key", insM(uni[1]), insM(full[len(full)-1]))
+			mmm("insert other key; insert #1; delete keys of #1", insM(full[len(full)-1]), insM(uni[1]), delM(rm.SetOf(uni[1].Keys()...)))
 		}
-	case c.Scalar() && (c.KeyT == "integer" || c.KeyT == "real"):
+	case c.Scalar() && (c.KeyT == "integer" || c.KeyT == "real") && len(c.Enum) == 0: // enums take no arithmetic (and would leave the enumeration)
 		one := rm.SetOf(rm.I(1))
 		two := rm.SetOf(rm.I(2))
 		if c.KeyT == "real" {
